@@ -28,6 +28,20 @@ func getRequiredFloat(ctx *http.Request, name string, def string, err error) (fl
 	return iRes, err
 }
 
+// getRequiredNs reads a nanosecond timestamp: integers are taken exactly (a float64 cannot hold
+// nanoseconds since the epoch), other numbers as before
+func getRequiredNs(ctx *http.Request, name string, def string, err error) (int64, error) {
+	if err != nil {
+		return 0, err
+	}
+	strRes := ctx.URL.Query().Get(name)
+	if iRes, perr := strconv.ParseInt(strRes, 10, 64); perr == nil {
+		return iRes, nil
+	}
+	f, err := getRequiredFloat(ctx, name, def, nil)
+	return int64(f), err
+}
+
 func getRequiredDuration(ctx *http.Request, name string, def string, err error) (float64, error) {
 	if err != nil {
 		return 0, err
